@@ -14,6 +14,7 @@ import (
 	"testing"
 
 	"github.com/massnetorg/mass-core/pocec"
+	"massnet.org/mass/poc/engine"
 	massdb_v1 "massnet.org/mass/poc/engine/massdb/massdb.v1"
 )
 
@@ -23,15 +24,32 @@ func TestVsReplayC11(t *testing.T) {
 		Obligation string `json:"obligation"`
 	}
 	json.Unmarshal(raw, &m)
-	dir := t.TempDir()
 	sk1, _ := pocec.PrivKeyFromBytes(pocec.S256(), bytes.Repeat([]byte{7}, 32))
 	sk2, _ := pocec.PrivKeyFromBytes(pocec.S256(), bytes.Repeat([]byte{9}, 32))
 	pk1, pk2 := sk1.PubKey(), sk2.PubKey()
-	mdb, err := massdb_v1.NewMassDBV1(dir, 7, pk1, 8)
-	if err != nil {
-		t.Fatal(err)
+	if strings.Contains(m.Obligation, "incomplete-table-is-registered") || strings.Contains(m.Obligation, "complete-table-is-ready") {
+		// map A complete, map B not started: must come up registered
+		dir := t.TempDir()
+		mdb, err := massdb_v1.NewMassDBV1(dir, 7, pk1, 8)
+		if err != nil {
+			t.Fatal(err)
+		}
+		if err := massdb_v1.VsPrePlotOnly(mdb); err != nil {
+			t.Fatal(err)
+		}
+		mdb.Close()
+		ws, err := NewWorkSpace(massdb_v1.TypeMassDBV1, dir, 7, pk1, 8)
+		if err != nil {
+			fmt.Println("VSREPLAY-NOT-REPRODUCED: load failed:", err)
+			return
+		}
+		if ws.state != engine.Registered {
+			fmt.Printf("VSREPLAY-CONFIRMED: pre-plotted but unplotted space (map B checkpoint 0) comes up in state %v\n", ws.state)
+			return
+		}
+		fmt.Println("VSREPLAY-NOT-REPRODUCED: half-plotted space is registered")
+		return
 	}
-	mdb.Close()
 	wrongKey, wrongBL := pk1, 8
 	switch {
 	case strings.Contains(m.Obligation, "key-equals-name-key"):
@@ -39,24 +57,37 @@ func TestVsReplayC11(t *testing.T) {
 	case strings.Contains(m.Obligation, "bitlength-equals-name-bitlength"):
 		wrongBL = 10
 	default:
-		fmt.Println("VSREPLAY-NOT-REPRODUCED: no native scenario for obligation", m.Obligation)
+		fmt.Println("VSREPLAY-NO-SCENARIO: no native scenario for obligation", m.Obligation)
 		return
 	}
-	files, _ := filepath.Glob(filepath.Join(dir, "*.massdb"))
-	for _, f := range files {
-		suffix := ".massdb"
-		if strings.HasSuffix(f, "_a.massdb") {
-			suffix = "_a.massdb"
-		}
-		nn := fmt.Sprintf("7_%x_%d%s", wrongKey.SerializeCompressed(), wrongBL, suffix)
-		if err := os.Rename(f, filepath.Join(dir, nn)); err != nil {
+	for _, full := range []bool{false, true} { // an unfinished plot, then a complete one
+		dir := t.TempDir()
+		mdb, err := massdb_v1.NewMassDBV1(dir, 7, pk1, 8)
+		if err != nil {
 			t.Fatal(err)
 		}
+		if full {
+			if err := <-mdb.Plot(); err != nil {
+				t.Fatal(err)
+			}
+		}
+		mdb.Close()
+		files, _ := filepath.Glob(filepath.Join(dir, "*.massdb"))
+		for _, f := range files {
+			suffix := ".massdb"
+			if strings.HasSuffix(f, "_a.massdb") {
+				suffix = "_a.massdb"
+			}
+			nn := fmt.Sprintf("7_%x_%d%s", wrongKey.SerializeCompressed(), wrongBL, suffix)
+			if err := os.Rename(f, filepath.Join(dir, nn)); err != nil {
+				t.Fatal(err)
+			}
+		}
+		ws, err := NewWorkSpace(massdb_v1.TypeMassDBV1, dir, 7, wrongKey, wrongBL)
+		if err == nil && ws != nil {
+			fmt.Printf("VSREPLAY-CONFIRMED: plot (complete=%v) written for key %x / bl 8 was indexed as %s (state %v)\n", full, pk1.SerializeCompressed()[:6], ws.id.String()[:16]+"…", ws.state)
+			return
+		}
 	}
-	ws, err := NewWorkSpace(massdb_v1.TypeMassDBV1, dir, 7, wrongKey, wrongBL)
-	if err == nil && ws != nil {
-		fmt.Printf("VSREPLAY-CONFIRMED: plot written for key %x / bl 8 was indexed as %s (state %v)\n", pk1.SerializeCompressed()[:6], ws.id.String()[:16]+"…", ws.state)
-		return
-	}
-	fmt.Println("VSREPLAY-NOT-REPRODUCED: renamed plot rejected:", err)
+	fmt.Println("VSREPLAY-NOT-REPRODUCED: renamed plots rejected")
 }
